@@ -1024,6 +1024,26 @@ public:
   size_t flushes{0};
 };
 
+// a sink filter whose verdict is a pure function of the message line it is shown (kind 0 = no filter): with the
+// multi-line flag on the backend asks it once per message line, so a statement can lose its FIRST line and keep later ones
+bool line_rejected(int kind, std::string_view m)
+{
+  if (kind == 1) return (m.size() % 2) == 0;
+  if (kind == 2) return verif::fnv1a(m.data(), m.size()) % 3 == 0;
+  return false;
+}
+class LineFilter final : public quill::Filter
+{
+public:
+  explicit LineFilter(int k) : quill::Filter("verif_line_filter"), kind(k) {}
+  bool filter(quill::MacroMetadata const*, uint64_t, std::string_view, std::string_view, std::string_view, quill::LogLevel,
+              std::string_view log_message, std::string_view) noexcept override
+  {
+    return !line_rejected(kind, log_message);
+  }
+  int kind;
+};
+
 class GenClock final : public quill::UserClockSource
 {
 public:
@@ -1191,6 +1211,11 @@ void e2e_case(Choices& c, Report& r)
     if (want_plain && c.weighted({1, 1}) == 1) { sinks.insert(sinks.begin(), over_sink); r.label("override_sink_before_plain_sink"); }
     else sinks.push_back(over_sink);
   }
+  // per-sink line filters (most cases none)
+  int const plain_filter = static_cast<int>(c.weighted({4, 1, 1}));
+  int const over_filter = static_cast<int>(c.weighted({4, 1, 1}));
+  if (plain_sink && plain_filter) { plain_sink->add_filter(std::make_unique<LineFilter>(plain_filter)); r.label("sink_line_filter"); }
+  if (over_sink && over_filter) { over_sink->add_filter(std::make_unique<LineFilter>(over_filter)); r.label("override_sink_line_filter"); }
 
   // ---- a second logger on the same sinks: the same options (the backend shares one formatter between loggers whose
   // options compare equal), or options that differ from the first logger's in exactly ONE field -- then nothing may be
@@ -1481,6 +1506,7 @@ void e2e_case(Choices& c, Report& r)
   // ---- compare ----
   auto check_sink = [&](RecordingSink const& sk, bool is_override, char const* which)
   {
+    int const fkind = is_override ? over_filter : plain_filter;
     size_t idx = 0;
     for (size_t s = 0; s < exps.size(); ++s)
     {
@@ -1489,17 +1515,24 @@ void e2e_case(Choices& c, Report& r)
       Pattern const& sp = is_override ? op : pl[e.logger_idx];
       TsPat const& stp = is_override ? *otp : *tpl[e.logger_idx];
       bool const sgmt = is_override ? ogmt : gmtl[e.logger_idx];
-      for (size_t l = 0; l < e.lines.size(); ++l, ++idx)
+      for (size_t l = 0; l < e.lines.size(); ++l)
       {
+        if (line_rejected(fkind, e.lines[l]))
+        {
+          // the sink's filter rejects this line: the sink must not see it; the other lines are still complete lines
+          if (l == 0 && e.lines.size() > 1) r.label("first_line_of_multi_line_statement_filtered");
+          continue;
+        }
+        size_t const this_idx = idx++;
         std::string const where = std::string{which} + " sink, statement #" + std::to_string(s) + " line " +
           std::to_string(l + 1) + "/" + std::to_string(e.lines.size());
-        if (idx >= sk.recs.size())
+        if (this_idx >= sk.recs.size())
         {
-          r.fail(where + ": missing write_log call (sink received " + std::to_string(sk.recs.size()) + " of " +
-                 std::to_string(expected_calls) + " expected calls)");
+          r.fail(where + ": missing write_log call (sink received " + std::to_string(sk.recs.size()) + " calls; " +
+                 std::to_string(expected_calls) + " expected before its line filter)");
           return;
         }
-        Rec const& g = sk.recs[idx];
+        Rec const& g = sk.recs[this_idx];
         if (g.msg != e.lines[l])
         {
           r.fail(where + ": log_message " + diff_msg(g.msg, e.lines[l]));
